@@ -82,16 +82,38 @@ def r11_7(ctx: Ctx, rule="R11.7"):
     ctx.floor(rule, n, 4, "System accessors")
 
 
+def _main_block(fn: ast.AST):
+    """The statements that do the work: an early `return` for some special argument (structured by the loader into an
+    enclosing `if not special:`) is peeled off, so the rules below look at the block that runs in the general case."""
+    body = list(fn.body)
+    outer = []
+    while True:
+        rest = [s_ for s_ in body if not (isinstance(s_, ast.Expr) and isinstance(s_.value, ast.Constant))]
+        if len(rest) == 1 and isinstance(rest[0], ast.If):
+            i_ = rest[0]
+            only_ret = lambda blk: all(isinstance(x, (ast.Return, ast.Pass)) and getattr(x, "value", None) is None for x in blk)
+            if not i_.orelse or only_ret(i_.orelse):
+                outer.append(i_)
+                body = list(i_.body)
+                continue
+            if only_ret(i_.body):
+                outer.append(i_)
+                body = list(i_.orelse)
+                continue
+        return body, outer
+
+
 def r11_1_2(ctx: Ctx):
     f = ctx.func("System.add_molecule_top")
     E = Effects(ctx.repo)
+    main_body, peeled = _main_block(f.node)
     cfg = CFG(f.node)
     dom = cfg.dominators()
     pdom = cfg.dominators(reverse=True, virtual_end=False)
     blocks = "self._molecules_ordered"
     # insertion = call whose summary writes the block list
     inserts, sorts = [], []
-    for st in f.node.body:
+    for st in main_body:
         for node, g, binding, recv in E.calls(f):
             if any(node is x for x in ast.walk(st)):
                 if any(e.root[0] == "self" and blocks.split(".")[1] in e.target and e.kind in ("MUT_CALL", "ITEM_STORE", "AUG_INPLACE")
@@ -112,7 +134,8 @@ def r11_1_2(ctx: Ctx):
     cond_sort = None
     pmf_ = parents_map(f.node)
     for c in calls_in(f.node):
-        if call_name(c) in ("sort", "sorted") and ("_molecules_ordered" in norm(c)) and guards_of(c, pmf_):
+        if call_name(c) in ("sort", "sorted") and ("_molecules_ordered" in norm(c)) and \
+                [g_ for g_ in guards_of(c, pmf_) if not any(g_[0] is p_.test for p_ in peeled)]:
             cond_sort = c
     if ok and cond_sort is not None:
         ok = False
@@ -128,7 +151,7 @@ def r11_1_2(ctx: Ctx):
            node=sorts[-1][0] if sorts else f.node, insertion_sites=[norm(i)[:60] for i in inserts])
     # R11.2
     state_writes = []
-    for st in f.node.body:
+    for st in main_body:
         w = False
         for e in E.direct(f):
             if e.line == st.lineno and e.root[0] == "self":
